@@ -83,6 +83,30 @@ ASSUMPTIONS = [
     "the five anchored sites are connected by those attributes, which is not "
     "itself checked",
 ]
+# rules/c10_quantifiers.py (R10.20, R10.21)
+EXPLANATION += (
+    "  R10.20 (rules/c10_quantifiers.py) the quantifier around the C3 tail "
+    "test: the comprehension that binds the row variable of `cand in "
+    "row[1:]` ranges over the rows parameter itself (also through "
+    "list/tuple/iter/reversed or a full slice), is filtered by nothing but "
+    "the tail test and the exclusion of the candidate's own row, and is "
+    "consumed by a positive any(..); a slice of the rows (`seqs[i + 1:]`, "
+    "`seqs[1:]`, `seqs[:k]`) or all(..) is a violation, other filters or an "
+    "explicit loop are analysis errors.  R10.21 super(): in "
+    "attribute._get_attribute_from_super_instance the `skip` argument of the "
+    "MRO look-up is built by a forward scan of `<cls argument>.mro` that adds "
+    "every element it passes (must-flow inside the loop body, before the "
+    "break) and stops at the single break guarded by element == the class "
+    "bound from obj.super_cls; a skip set computed by an expression that "
+    "consults another linearisation (current_cls.mro) is a violation.  Blind "
+    "spot: that the rows handed to MergeSequences are de-duplicated (needed "
+    "for `cand in own_row[1:]` to be false) is R10.1's business; R10.21 does "
+    "not decide the choice of starting_cls.")
+ASSUMPTIONS += [
+    "R10.21: CPython's super(T, obj) continues in type(obj).__mro__ right "
+    "after T; the local bound only from `<x>.super_cls` is T and the `cls` "
+    "argument of the look-up is type(obj)",
+]
 
 MRO = "pytype/pytd/mro.py"
 MIXIN = "pytype/abstract/class_mixin.py"
